@@ -68,10 +68,22 @@ pub fn emit(tier: &str, seed: u64, path: &str) -> Report {
         for _ in 0..extra {
             lens.push(rng.below(if p.is_local() { 3000 } else { 600 }));
         }
+        let mut prev: Option<(Vec<u8>, usize)> = None;
         for (k, &n) in lens.iter().enumerate() {
-            let ki = rng.below(pools.count(p));
+            let mut ki = rng.below(pools.count(p));
+            let mut nonce = if p == P::V2L && k % 2 == 1 { rng.bytes(24) } else { rng.bytes(32) };
+            // every fifth record re-uses the nonce of the record before it under ANOTHER key (what is derived from a nonce must
+            // not be remembered apart from the key)
+            if k % 5 == 4 && pools.count(p) > 1 {
+                if let Some((pn, pk)) = &prev {
+                    nonce = pn.clone();
+                    if ki == *pk {
+                        ki = (ki + 1) % pools.count(p);
+                    }
+                }
+            }
+            prev = Some((nonce.clone(), ki));
             let key = pools.key(p, ki);
-            let nonce = if p == P::V2L && k % 2 == 1 { rng.bytes(24) } else { rng.bytes(32) };
             let msg = match k % 3 {
                 0 => gens::ascii_of_len(n, k as u8),
                 1 => gens::utf8_of_len(n, &mut rng),
@@ -82,6 +94,12 @@ pub fn emit(tier: &str, seed: u64, path: &str) -> Report {
                     }
                     s
                 }
+            };
+            // messages that begin with a byte-order mark or white space / end in white space are messages like any other
+            let msg = match k % 7 {
+                3 => format!("\u{feff}{}", msg),
+                5 => format!(" {}\n", msg),
+                _ => msg,
             };
             let footer = opt_cat(&mut rng, k);
             let ia = if p.has_assertion() { opt_cat(&mut rng, k / 6 + k) } else { None };
